@@ -39,11 +39,20 @@ fn sources() -> Vec<Src> {
         Src { name: "capacity-error", text: ".device ATtiny13\n.org 511\nnop\nnop\n".into(), extra: vec![], missing_source: false },
         Src { name: "error-directive", text: "nop\n.error \"stop\"\n".into(), extra: vec![], missing_source: false },
         Src { name: "missing-include", text: "nop\n.include \"nowhere.inc\"\n".into(), extra: vec![], missing_source: false },
+        // what the user writes into texts and names must not be taken for the tool's own words
+        Src { name: "error-directive-text-says-warning", text: "nop\n.error \"warning: low battery\"\n".into(), extra: vec![], missing_source: false },
+        Src { name: "error-directive-text-says-success", text: ".error \"info: done, 0 errors, Nothing to write\"\n".into(), extra: vec![], missing_source: false },
+        Src { name: "missing-include-named-warning", text: "nop\n.include \"warning: x.inc\"\n".into(), extra: vec![], missing_source: false },
+        Src { name: "undefined-symbol-named-warning", text: "ldi r16, warning\n".into(), extra: vec![], missing_source: false },
+        Src { name: "valid-with-alarming-messages", text: ".warning \"Failed to build? error: no\"\n.message \"error: none, panicked at nothing\"\nldi r16, 3\n".into(), extra: vec![], missing_source: false },
         Src { name: "missing-source", text: "".into(), extra: vec![], missing_source: true },
     ]
 }
 
-const STEMS: [&str; 5] = ["a.asm", "a.b.asm", "noext", "sub/dir/prog.asm", "ABS"];
+/// "ABS": the source is named by an absolute path; "LINK": the source named on the command line is a symbolic
+/// link to a file in another directory (files included by a bare name are looked for next to the link, which is
+/// where the library, given the same path, looks; another file of that name lies next to the link's target)
+const STEMS: [&str; 6] = ["a.asm", "a.b.asm", "noext", "sub/dir/prog.asm", "ABS", "LINK"];
 // option sets: which of -o / -e / -v are given
 const OPTS: [(bool, bool, bool); 6] = [(false, false, false), (true, false, false), (false, true, false), (true, true, false), (false, false, true), (true, true, true)];
 const FAULTS: [&str; 6] = ["none", "dir-missing", "is-directory", "parent-is-file", "dev-full", "name-too-long"];
@@ -154,8 +163,10 @@ fn odd_names_and_clashes(ctx: &Ctx, bin: &Path) {
         (vec!["-o", "same.hex", "-e", "./same.hex"], true),
         (vec!["-o", "same.hex", "-e", "link-to-same.hex"], true), // a symbolic link to the flash file
         (vec!["-o", "same.hex", "-e", "same.hex"], false),
+        (vec!["-o", "same.hex", "-e", "same.hex"], true), // EEPROM data only: the (empty) flash image is written too
     ].into_iter().enumerate() {
         let flash_only_case = k == 6;
+        let eeprom_only_case = k == 7;
         let root = base.join(format!("clash{}", k));
         let _ = std::fs::remove_dir_all(&root);
         let (work, home) = (root.join("work"), root.join("home"));
@@ -165,7 +176,7 @@ fn odd_names_and_clashes(ctx: &Ctx, bin: &Path) {
         }
         let _ = std::os::unix::fs::symlink("same.hex", work.join("link-to-same.hex"));
         let src = work.join("prog.asm");
-        let _ = std::fs::write(&src, if flash_only_case { flash_only } else { text });
+        let _ = std::fs::write(&src, if flash_only_case { flash_only } else if eeprom_only_case { ".eseg\n.db 4, 5, 6\n" } else { text });
         let expected = fw::build_file(&src, &[home.join("cfg").join("avra-rs").join("includes")]);
         let out = Command::new(bin).arg("-s").arg("prog.asm").args(&opts).current_dir(&work).env("HOME", &home).env("XDG_CONFIG_HOME", home.join("cfg")).output();
         ctx.eval(1);
@@ -180,6 +191,10 @@ fn odd_names_and_clashes(ctx: &Ctx, bin: &Path) {
         if flash_only_case {
             if !(out.status.code() == Some(0) && decode_is(&work.join("same.hex"), &exp.code)) {
                 ctx.violation("cli/success/same-path-one-image/flash-file-content", format!("{:?} with a flash image only: exit {:?}", opts, out.status.code()), case);
+            }
+        } else if eeprom_only_case {
+            if out.status.code() == Some(0) || !said {
+                ctx.violation("cli/both-images-to-one-path/eeprom-only/not-refused", format!("{:?} with EEPROM data only: exit {:?}; one file cannot be the (empty) flash file and the EEPROM file", opts, out.status.code()), case);
             }
         } else if both {
             let flash_target = work.join(if opts[0] == "-e" { "prog.hex" } else { opts[1] });
@@ -215,11 +230,30 @@ fn check(ctx: &Ctx, bin: &Path, profile: &str, c: &Case, idx: usize, strace: boo
         return;
     }
     // source path: relative to cwd = work, except the absolute variant
-    let rel = if c.stem == "ABS" { "absdir/main.asm" } else { c.stem };
+    let rel = match c.stem {
+        "ABS" => "absdir/main.asm",
+        "LINK" => "links/linked.asm",
+        other => other,
+    };
     let src_abs = work.join(rel);
     let _ = std::fs::create_dir_all(src_abs.parent().unwrap());
     if !c.src.missing_source {
-        let _ = std::fs::write(&src_abs, &c.src.text);
+        if c.stem == "LINK" {
+            let target_dir = work.join("elsewhere");
+            let _ = std::fs::create_dir_all(&target_dir);
+            let _ = std::fs::write(target_dir.join("target.asm"), &c.src.text);
+            if std::os::unix::fs::symlink(target_dir.join("target.asm"), &src_abs).is_err() {
+                ctx.inconclusive("cannot create a symbolic link");
+                return;
+            }
+            for (p, t) in &c.src.extra {
+                let ep = target_dir.join(p);
+                let _ = std::fs::create_dir_all(ep.parent().unwrap());
+                let _ = std::fs::write(ep, t.replace("77", "78"));
+            }
+        } else {
+            let _ = std::fs::write(&src_abs, &c.src.text);
+        }
         for (p, t) in &c.src.extra {
             let ep = src_abs.parent().unwrap().join(p);
             let _ = std::fs::create_dir_all(ep.parent().unwrap());
@@ -336,13 +370,16 @@ fn check(ctx: &Ctx, bin: &Path, profile: &str, c: &Case, idx: usize, strace: boo
         Outcome::Ok(b) => {
             let flash_path = o_path.clone().unwrap_or(default_hex.clone());
             let eep_path = e_path.clone().unwrap_or(default_eep.clone());
-            let flash_faulty = fault_active && c.fault_on == 0 && !b.code.is_empty();
+            let flash_faulty = fault_active && c.fault_on == 0;
             let eep_faulty = fault_active && c.fault_on == 1 && !b.eeprom.is_empty();
             let mut should_fail = false;
             for (which, path, image, faulty) in [("flash", &flash_path, &b.code, flash_faulty), ("eeprom", &eep_path, &b.eeprom, eep_faulty)] {
-                if image.is_empty() {
-                    continue; // "nothing to write" is accepted (statement only speaks of a non-empty EEPROM image; an empty flash image has no content to place)
+                if image.is_empty() && which == "eeprom" {
+                    // an empty EEPROM image is not written (the file must then not appear or change: see `allowed` below)
+                    continue;
                 }
+                // the flash image is written whatever it holds: an empty one as a file that decodes to nothing, so
+                // that a file left by an earlier build (the sentinel) does not pass for the result of this one
                 if faulty {
                     should_fail = true;
                     continue;
